@@ -52,6 +52,8 @@ BUILDS = {
     "fast-nofma-checked": (["--profile", "checked", "--features", "fast"], ""),
     "fast-fma-release": (["--release", "--features", "fast"], FMA),
     "fast-fma-checked": (["--profile", "checked", "--features", "fast"], FMA),
+    # the default build with a global allocator that returns 4-mod-16 addresses for low-alignment requests (a host dimension)
+    "fast-nofma-misalign": (["--release", "--features", "fast,misalign"], ""),
     "exact-nofma-release": (["--release"], ""),
     "exact-nofma-checked": (["--profile", "checked"], ""),
     "exact-fma-release": (["--release"], FMA),
